@@ -560,7 +560,13 @@ func controlInjection(id string, seed uint64) runner.Result {
 	r := &payload.SplitMix{S: seed}
 	var mu sync.Mutex
 	got := map[string][]int{}
+	gotMD := map[string]string{}
+	wantMD := map[string]string{}
 	handler := rig.HandlerFunc(func(stream drpc.Stream, rpc string) error {
+		md, _ := drpcmetadata.Get(stream.Context())
+		mu.Lock()
+		gotMD[rpc] = fmt.Sprint(md)
+		mu.Unlock()
 		for {
 			var m []byte
 			if err := stream.MsgRecv(&m, payload.Enc{}); err != nil {
@@ -633,6 +639,7 @@ func controlInjection(id string, seed uint64) runner.Result {
 			b = refwire.Encode(b, refwire.Frame{Stream: sid, Message: mid, Kind: 7, Done: true, Data: []byte{10, 6, 10, 1, 'k', 18, 1, 'v'}})
 			mid++
 			desc = append(desc, "metadata")
+			wantMD[rpc] = fmt.Sprint(map[string]string{"k": "v"})
 			inject(sid, &mid, false, &next)
 		}
 		b = refwire.Encode(b, refwire.Frame{Stream: sid, Message: mid, Kind: 1, Done: true, Data: []byte(rpc)})
@@ -663,6 +670,15 @@ func controlInjection(id string, seed uint64) runner.Result {
 	for rpc, w := range want {
 		if fmt.Sprint(got[rpc]) != fmt.Sprint(w) {
 			fails = append(fails, fmt.Sprintf("%s: handler received message sizes %v, want %v", rpc, got[rpc], w))
+		}
+	}
+	for rpc, g := range gotMD {
+		w := wantMD[rpc]
+		if w == "" {
+			w = fmt.Sprint(map[string]string(nil))
+		}
+		if g != w {
+			fails = append(fails, fmt.Sprintf("%s: the handler saw metadata %s, the session attached %s (an ignored control packet must not disturb the call it sits in)", rpc, g, w))
 		}
 	}
 	for i := 0; i < nrpc; i++ {
